@@ -17,6 +17,7 @@ color_formatter = formatters.TerminalTrueColorFormatter(style='stata-dark')
 DBG_TRACE = 7
 DBG_FSYSTEM = 3
 DBG_BSD = 4
+DBG_PERF = 37
 
 
 class PyKdebugParser:
@@ -71,6 +72,10 @@ class PyKdebugParser:
         add_fs_class = has_filters and has_bsd and DBG_FSYSTEM not in filter_class
         if add_fs_class:
             filter_class.append(DBG_FSYSTEM)
+        # The thread info of kperf samples maps threads to processes.
+        add_perf_class = has_filters and DBG_PERF not in filter_class
+        if add_perf_class:
+            filter_class.append(DBG_PERF)
 
         traces_parser = TracesParser(trace_codes_map, self.threads_pids, self.pids_names)
         # The events of all the threads are parsed, traces of a thread use data that other threads recorded
@@ -85,6 +90,8 @@ class PyKdebugParser:
             trace_generator = filter(lambda t: t.ktraces[0].eventid >> 24 != DBG_TRACE, trace_generator)
         if add_fs_class:
             trace_generator = filter(lambda t: t.ktraces[0].eventid >> 24 != DBG_FSYSTEM, trace_generator)
+        if add_perf_class:
+            trace_generator = filter(lambda t: t.ktraces[0].eventid >> 24 != DBG_PERF, trace_generator)
         return trace_generator
 
     def formatted_traces(self, kdebug: io.IOBase, trace_codes=None):
